@@ -192,6 +192,12 @@ func genDecoder(seed int64, n int, tier string) []Script {
 		default:
 			B = W + 1 + r.Intn(30)
 		}
+		if r.Intn(16) == 0 {
+			// at and beyond the boundary of what the configuration check
+			// accepts (WindowSize < BufferSize): if Init/NewDecoder accepts
+			// such a geometry the object must still behave
+			B = W - r.Intn(2)
+		}
 		faulty := r.Intn(2) == 0
 		invalid := r.Intn(4) == 0
 		alpha := 2 + r.Intn(3)
